@@ -324,6 +324,8 @@ GenesisRoute == Genesis0 \o
        [call |-> ExecuteCall("u1", << Inst(3, "LE", "", <<>>, "") >>), sc |-> <<B0>>] >>
 SlotsOf(c) == IF c = E THEN Slots \ {"custom"} ELSE Slots
 EmptyTyped(cu) == cu.call.k = "execute" /\ cu.call.msgs[1].k \in {"migrate", "inst"} /\ cu.call.msgs[1].code = 3
+(* a bank message whose coin list has a zero coin: the bank module is handed the list as written *)
+SendZ == [k |-> "bank_send", to |-> "u2", coins |-> << <<"eth", 0>>, <<"eth", 1>> >>]
 RouteMenu(info, fuel, cu) ==
     IF info.entry = "reply" \/ Len(cu.sc) > 0 THEN {B0}
     ELSE {Beh(FALSE, WriteTok(info), <<>>, <<>>, NoData, <<Sub(Mod(s, "m1"), 1, "", on)>>) :
@@ -331,9 +333,10 @@ RouteMenu(info, fuel, cu) ==
          \cup {Beh(FALSE, WriteTok(info), <<>>, <<>>, NoData, <<Sub(Send("u2", 1), 1, "", "never"), Sub(Mod(s, "m2"), 2, "", on)>>) :
                   s \in (IF EmptyTyped(cu) THEN Slots \ {"custom"} ELSE SlotsOf(info.c)), on \in {"never", "error"}}
          \cup {Beh(FALSE, WriteTok(info), <<>>, <<>>, NoData, <<Sub(m, 3, "", on)>>) :
-                  m \in {Exec(B, <<>>), Exec(B, Eth(1)), Inst(2, "Lw", "", <<>>, ""), Send("u2", 1), Burn(1)}, on \in {"never", "success"}}
+                  m \in {Exec(B, <<>>), Exec(B, Eth(1)), Inst(2, "Lw", "", <<>>, ""), Send("u2", 1), Burn(1), SendZ}, on \in {"never", "success"}}
 RouteCalls(rt, cd, n) ==
     { ExecuteCall("u1", << Mod(s, "m0") >>) : s \in Slots }
+    \cup { ExecuteCall("u1", << SendZ >>) }
     (* long payloads of multi-byte characters (three alignments): handed over intact, the module's answer is the caller's *)
     \cup { ExecuteCall("u1", << Mod(s, p) >>) : s \in Slots, p \in {"UNI0", "UNI1", "UNI2"} }
     \cup { ExecuteCall("u1", << Send("u2", 1), Mod(s, "m3") >>) : s \in Slots }
